@@ -5,7 +5,8 @@ from checks_config import PROPS
 COMMON = (" The generated search runs in processes that differ in what nobody lists as an input: one P, CPU counts from 1 to 16, a 32-bit build, a -race (checkptr) "
           "build, a purego/unoptimised build, a start during an entropy outage or with a broken SHA-256 registration, hostile ambient entropy; documented panics are "
           "provoked and recovered before one case in eight; for functions of the API an endurance unit compares every one of 2^20 (quick) / 2^24 (thorough) calls in one "
-          "process with the model (DESIGN.md 3.5, 3.5a).")
+          "process with the model, with a rotating table, one hot operand, rings of up to 65 537 distinct operands (working set) and under garbage-collection / "
+          "stack-move churn (DESIGN.md 3.5, 3.5a).")
 
 
 def T(level, note, technique, ref):
